@@ -213,10 +213,11 @@ class Cell:
     with cuts [(a, c, sign)] meaning sign*(a.x - c) >= 0;  kind is None -> free convex polytope with vertices
     `verts` of dimension k (only for k < d, no cuts, cannot be subdivided by the model).'''
 
-    __slots__ = ('kind', 'v0', 'E', 'cuts', 'k', 'd', 'verts', '_poly', '_key', '_pverts', '_scale', '_measure', '_einv')
+    __slots__ = ('kind', 'v0', 'E', 'cuts', 'k', 'd', 'verts', 'atomic', '_poly', '_key', '_pverts', '_scale', '_measure', '_einv')
 
-    def __init__(self, kind, v0=None, E=None, cuts=(), verts=None, k=None):
+    def __init__(self, kind, v0=None, E=None, cuts=(), verts=None, k=None, atomic=None):
         self.kind = None if kind is None else tuple(kind)
+        self.atomic = atomic      # per simplex factor: True = the next refinement returns this factor unchanged (nutils' OwnChildReference)
         self.cuts = tuple(cuts)
         self._poly = False
         self._key = None
@@ -533,7 +534,16 @@ def facet_overlap(n, v1, v2):
 
 
 def facet_measure(n, verts):
-    return facet_overlap(n, verts, verts)
+    '(d-1)-measure (float) of a convex facet with normal n given by its exact vertices'
+    d = len(n)
+    if d == 1:
+        return 1.
+    j = max(range(d), key=lambda i: abs(n[i]))
+    factor = math.sqrt(float(dot(n, n))) / abs(float(n[j]))
+    if d == 2:
+        a = [drop(v, j)[0] for v in verts]
+        return float(max(a) - min(a)) * factor
+    return float(polygon_area([drop(v, j) for v in verts])) * factor
 
 
 def hull_vertices(points, k, tol=1e-9):
